@@ -55,6 +55,22 @@ def cv_conv1(c, a):
     return res
 
 
+@op("Conv", "Conv1g")
+def cv_conv1g(c, a):
+    _decl(c.L)
+    res = None
+    for nt in _types(a):
+        buf = CBuf(len(a["buf"]), bytes(a["buf"]))
+        r = c.L.DFKconvert(buf.p, buf.p, nt, a["n"], DIR[a["dir"]], a["ss"], a["ds"])
+        o = {"ret": 0 if r == 0 else FAIL, "buf": list(buf.raw())}
+        buf.free()
+        if res is None:
+            res = o
+        elif o != res:
+            res = dict(o, buf=[-5])
+    return res
+
+
 def permute(raw, size, perm):
     """apply the element-wise byte permutation to a contiguous buffer (perm is 1-based source index per dest byte)"""
     out = bytearray(len(raw))
